@@ -115,6 +115,18 @@ impl<K, V, S, A: std::alloc::Allocator> MapStub<K, V, S, A> {
             std::mem::transmute_copy::<Option<&String>, Option<&'a V>>(&r)
         }
     }
+    /// `HashMap::insert` does nothing in the solver run (lookups are answered by the oracle above); in a native
+    /// replay, where stubs are not active, the real insert fills the real tables with the same entries.
+    pub fn insert(_m: &mut std::collections::HashMap<K, V, S, A>, k: K, v: V) -> Option<V> {
+        std::mem::forget(k);
+        std::mem::forget(v);
+        None
+    }
+}
+
+/// names are told apart by their first byte ("f.c", "a", "b")
+fn tag(s: &str) -> usize {
+    s.as_bytes().first().copied().unwrap_or(0) as usize
 }
 
 struct RecInl {
@@ -128,10 +140,10 @@ struct RecInl {
 impl FrameSymbolizer for RecInl {
     fn get_instruction(&self) -> u64 { self.ins }
     fn set_function(&mut self, _name: &str, _base: u64, _ps: u32) { self.func += 1; }
-    fn set_source_file(&mut self, f: &str, l: u32, b: u64) { self.src = Some((f.as_ptr() as usize, l, b)); self.nsrc += 1; }
+    fn set_source_file(&mut self, f: &str, l: u32, b: u64) { self.src = Some((tag(f), l, b)); self.nsrc += 1; }
     fn add_inline_frame(&mut self, name: &str, file: Option<&str>, line: Option<u32>) {
         if self.ninl < 3 {
-            self.inl[self.ninl] = (name.as_ptr() as usize, file.map_or(0, |f| f.as_ptr() as usize), line);
+            self.inl[self.ninl] = (tag(name), file.map_or(0, tag), line);
         }
         self.ninl += 1;
     }
@@ -147,10 +159,11 @@ impl FrameSymbolizer for RecInl {
 #[kani::unwind(6)]
 #[kani::stub(std::hash::RandomState::new, fixed_random_state)]
 #[kani::stub(std::collections::HashMap::get, MapStub::get)]
+#[kani::stub(std::collections::HashMap::insert, MapStub::insert)]
 fn c11_q_fill_symbol_lines_and_inlines() {
     unsafe { NAMES = Some([String::from("f.c"), String::from("a"), String::from("b")]); }
     let names = unsafe { (*std::ptr::addr_of!(NAMES)).as_ref().unwrap() };
-    let (pf, pa, pb) = (names[0].as_ptr() as usize, names[1].as_ptr() as usize, names[2].as_ptr() as usize);
+    let (pf, pa, pb) = (tag(&names[0]), tag(&names[1]), tag(&names[2]));
     // one FUNC [0x100, 0x200) with one line record covering it
     let lf: u32 = kani::any();
     let ll: u32 = kani::any();
@@ -166,7 +179,7 @@ fn c11_q_fill_symbol_lines_and_inlines() {
         Inlinee { depth: 1, address: a1, size: s1, call_file: cf1, call_line: cl1, origin_id: 8 },
     ];
     let f = Function { address: 0x100, size: 0x100, parameter_size: 0, name: String::new(), lines, inlinees };
-    let sf = SymbolFile {
+    let mut sf = SymbolFile {
         module_id: String::new(),
         debug_file: String::new(),
         files: std::collections::HashMap::new(),
@@ -182,6 +195,10 @@ fn c11_q_fill_symbol_lines_and_inlines() {
         corruptions_discarded: 0,
         cfi_eval_corruptions: 0,
     };
+    // no-ops in the solver run (stubbed), real inserts in a native replay
+    sf.files.insert(1, String::from("f.c"));
+    sf.inline_origins.insert(7, String::from("a"));
+    sf.inline_origins.insert(8, String::from("b"));
     unsafe {
         FILES_MAP = &sf.files as *const _ as usize;
         ORIGINS_MAP = &sf.inline_origins as *const _ as usize;
